@@ -49,13 +49,38 @@ CHECKS['C02'] = {
     'technique': 'Hypothesis-generated histories on a cluster simulator, invariant over the published state history',
 }
 
+CHECKS['C01'] = {
+    'engine': 'E1-clustersim',
+    'category': 'exploration',
+    'text': ('Generated cluster episodes (all synchro_options subsets incl. USER played by the harness, core subsets, both '
+             'auto_fence values; crashes, quick / slow restarts, cuts, isolations, heals, late boots, perturbed schedules) '
+             'followed by a quiet suffix; oracles: automatic requests only from a self-Master, one Master per group of '
+             'connected non-isolated instances (member of the group, RUNNING for all, self-Master), Master retention, '
+             'exact election rule on fault-free boots. Bounded-liveness form (K ticks).'),
+    'design_ref': 'DESIGN.md 5/C01',
+    'note': CLUSTER_NOTE,
+    'technique': 'Hypothesis-generated fault/schedule histories on a cluster simulator, validity predicate at quiescence',
+}
+CHECKS['C08'] = {
+    'engine': 'E1-clustersim',
+    'category': 'exploration',
+    'text': ('Generated cluster episodes (faults in any Supvisors state incl. DISTRIBUTION / CONCILIATION / ELECTION, on '
+             'Master or not; CONTINUE / RESYNC strategies; all conciliation strategies; sequenced applications with '
+             'generated process behaviours) followed by a fair suffix of K ticks; oracle: every connected non-isolated '
+             'group is in its Master state (OPERATION, or CONCILIATION only under USER with a conflict left) with no '
+             'job pending. Bounded-liveness form.'),
+    'design_ref': 'DESIGN.md 5/C08',
+    'note': CLUSTER_NOTE,
+    'technique': 'Hypothesis-generated fault histories on a cluster simulator, bounded-liveness predicate after a fair suffix',
+}
+
 HOOK_COMMITS = []
 
 ENGINES = [
     {'name': 'E1-clustersim', 'path': 'clustersim/', 'kind_free_text':
         'deterministic cluster simulator: N real Supvisors instances in one process on a fake OS / network / clock; '
         'Hypothesis generates configuration and history; per-property monitors',
-     'serves_properties': ['C02', 'C16']},
+     'serves_properties': ['C01', 'C02', 'C08', 'C16']},
     {'name': 'E3-solo', 'path': 'clustersim/solo.py', 'kind_free_text':
         'one real instance with puppet peers / pure component harnesses driven by Hypothesis',
      'serves_properties': ['C11']},
@@ -63,5 +88,5 @@ ENGINES = [
 
 _PENDING = 'check not built yet in this round (the technique applies; see DESIGN.md section 5)'
 NOT_APPLICABLE = {pid: _PENDING for pid in
-                  ['C01', 'C03', 'C04', 'C05', 'C06', 'C07', 'C08', 'C09', 'C10', 'C12', 'C13', 'C14', 'C15',
+                  ['C03', 'C04', 'C05', 'C06', 'C07', 'C09', 'C10', 'C12', 'C13', 'C14', 'C15',
                    'C17', 'C18', 'C19', 'C20']}
